@@ -65,6 +65,34 @@ fn observe_parser(k: K, v: u32, ci: usize, wrapped: bool) -> Result<(Vec<usize>,
             }
         }
     }
+    // what follows a value must not depend on the header: the same instruction (smallest accepted filler count)
+    // under every registered generator id with old / current / unknown tool versions and under several SPIR-V
+    // versions must be accepted and deliver the same operand kinds
+    if let (Some(fill), Some(base_kinds)) = (accepted.first().copied(), kinds.clone()) {
+        let mut body: Vec<u32> = vec![];
+        if wrapped {
+            body.extend([90, 91, opcode as u32]);
+        } else if *has_result {
+            body.extend([90, 91]);
+        }
+        body.extend(prefix);
+        body.push(v);
+        body.extend(std::iter::repeat(0).take(fill));
+        let first = (((1 + body.len()) as u32) << 16) | if wrapped { db().inst("SpecConstantOp").opcode as u32 } else { opcode as u32 };
+        for tool in 0..=46u32 {
+            for tv in [0u32, 1, 13, 14, 0xffff] {
+                let version = [0x0001_0000u32, 0x0001_0600, 0x0001_0300, 0x0001_0700][((tool + tv) % 4) as usize];
+                let mut w = gram::header(version, (tool << 16) | tv, 100);
+                w.push(first);
+                w.extend(&body);
+                let p = rs::parse_rec(&words_to_bytes(&w)).map_err(|p| format!("parser panicked: {}", p.msg))?;
+                let got: Option<Vec<String>> = if p.result.is_ok() && p.rec.insts.len() == 1 { Some(p.rec.insts[0].operands.iter().skip(prefix.len() + wrapped as usize + 1).map(gram::dr_variant_name).collect()) } else { None };
+                if got.as_ref() != Some(&base_kinds) {
+                    return Err(format!("header-dependent: under generator {:#x} / version {:#x} the parser delivers {:?} after the value, under another header {:?}", (tool << 16) | tv, version, got, base_kinds));
+                }
+            }
+        }
+    }
     Ok((accepted, kinds.unwrap_or_default()))
 }
 
@@ -197,7 +225,7 @@ pub fn run(cfg: &Cfg, rep: &mut Report) {
         let (accepted, parsed_kinds) = match observe_parser(k, v, ci, wrapped) {
             Ok(x) => x,
             Err(e) => {
-                r.violation(format!("C17:parser-panic:{}", key), format!("{} (in {})", e, via), rp());
+                r.violation(format!("C17:{}:{}", if e.starts_with("header-dependent") { "parser-depends-on-header" } else { "parser-panic" }, key), format!("{} (in {})", e, via), rp());
                 return;
             }
         };
